@@ -56,7 +56,52 @@ func connectTo(up *gws.Upgrader, copt *gws.ClientOption, ch gws.Event) (server, 
 	return r.c, client, r.err
 }
 
+// execSessLimit: `sess lim <limit> <seed>`: compression negotiated, the receiver's read limit is <limit>, the
+// sender sends an incompressible payload of exactly <limit> bytes (within both endpoints' limits).
+func execSessLimit(args []string) string {
+	limit, _ := strconv.Atoi(args[1])
+	seed, _ := strconv.Atoi(args[2])
+	pd := gws.PermessageDeflate{Enabled: true, ServerContextTakeover: true, ClientContextTakeover: true, PoolSize: 1}
+	sh, ch := newRecorder(), newRecorder()
+	s, c, _, _, err := handshakePair(&gws.ServerOption{PermessageDeflate: pd}, &gws.ClientOption{PermessageDeflate: pd, ReadMaxPayloadSize: limit}, sh, ch)
+	if err != nil {
+		return "handshake-failed"
+	}
+	go s.ReadLoop()
+	go c.ReadLoop()
+	p := NewRand(uint64(seed)).Bytes(limit)
+	if err := s.WriteMessage(gws.OpcodeBinary, p); err != nil {
+		return "send-error"
+	}
+	deadline := time.Now().Add(2 * time.Second)
+	for len(ch.Events()) < 2 && time.Now().Before(deadline) {
+		time.Sleep(200 * time.Microsecond)
+	}
+	evs := ch.Events()
+	res := "not-delivered"
+	if len(evs) >= 2 {
+		if evs[1] == "msg:2:"+hx(p) {
+			res = "delivered"
+		} else if strings.HasPrefix(evs[1], "close:") {
+			tap := c.NetConn().(*memConn).Tap()
+			if i := bytes.Index(tap, []byte("\r\n\r\n")); i >= 0 {
+				tap = tap[i+4:] // skip the client's upgrade request
+			}
+			res = "refused:" + closeReply(tap)
+		} else {
+			res = "corrupted"
+		}
+	}
+	_ = s.WriteClose(1000, nil)
+	sh.WaitClosed(time.Second)
+	ch.WaitClosed(time.Second)
+	return res
+}
+
 func execSess(args []string) string {
+	if args[0] == "lim" {
+		return execSessLimit(args)
+	}
 	en := args[0] == "1"
 	sT, cT := args[1] == "1", args[2] == "1"
 	sBits, _ := strconv.Atoi(args[3])
@@ -255,6 +300,10 @@ func genSess(g *Gen) {
 			}
 		}
 		g.Emit("sess %s %s %s %d %d %d %d %s", b2s(en), b2s(sT), b2s(cT), sBits, cBits, sThr, cThr, strings.Join(ops, ";"))
+	}
+	// payload exactly at the receiver's limit, incompressible, compression negotiated
+	for _, limit := range []int{200, 1000, 70000} {
+		g.Emit("sess lim %d %d", limit, g.R.Intn(1000))
 	}
 	// the two defect patterns, deterministic
 	ping := bytes.Repeat([]byte("0123456789abcdefghij"), 6)
